@@ -87,6 +87,8 @@ class Interp:
                 cur = cur[1][idx] if idx < len(cur[1]) else UNKNOWN
             elif e[0] == "*" and isinstance(cur, tuple) and cur and cur[0] == "ref":
                 cur = self.eval_place(cur[1], st, env)
+            elif e[0] == "*" and isinstance(cur, tuple) and cur and cur[0] == "variantref":
+                cur = ("variant", cur[1])
             elif e[0] == "*" and isinstance(cur, tuple) and cur and cur[0] in ("promoted", "bytes", "str", "array", "fmt", "rec", "disp"):
                 pass
             else:
